@@ -23,6 +23,9 @@ CONSTANTS
   Recipients = {"u1", "u2", "feepool", "module"}
   MaxSteps = 5
   DonateAlso = {"module", "feepool"}
+  Odd = {}
+  InitOdd = 0
+  WrongKind = FALSE
   WithUni = FALSE
 VIEW ViewDepth
 INVARIANTS
